@@ -214,6 +214,21 @@ def build(rng, tier):
         inst = f"{pid}_init_0"
         cases.append(engcheck.Case(f"{pid}_init", inst, [f"eng new {inst} {pid}_init", f"eng run {inst}", f"eng dump {inst}"],
                                    {"inp": fixed_inp, "kind": "initialised", "baked": True}))
+        # initialisers AND rows pushed by the caller before the first run() (some of them derivable by the rules): the pushed rows must be indexed like the initial ones
+        if not has_agg(p):
+            r5 = rng.fork(f"{pid}initpush")
+            db = eng.naive_model(p, fixed_inp)
+            pushed = gen.nodup_input(r5, p, max_rows=3)
+            for rel in range(len(p["rels"])):
+                der = [tuple(t) for t in sorted(db.get(rel, ())) if tuple(t) not in fixed_inp.get(rel, [])][: r5.range(0, 2)]
+                pushed[rel] = [t for t in dict.fromkeys(list(pushed.get(rel, [])) + der) if t not in fixed_inp.get(rel, [])]
+            union = {rel: list(fixed_inp.get(rel, [])) + list(pushed.get(rel, [])) for rel in range(len(p["rels"]))}
+            inst = f"{pid}_init_1"
+            ops = [f"eng new {inst} {pid}_init"]
+            for rel, rows in pushed.items():
+                if rows: ops.append(f"eng push {inst} r{rel}" + "".join(" " + eng.sx_tuple(t) for t in rows))
+            ops += [f"eng run {inst}", f"eng dump {inst}"]
+            cases.append(engcheck.Case(f"{pid}_init", inst, ops, {"inp": union, "kind": "initialised", "baked": True}))
     # initialised relations that only negation / aggregation consult, under ascent_run! / ascent_run_par! (only the input relations are initialised)
     for i in range(2 if tier == "quick" else 8):
         r4 = rng.fork(f"na{i}")
